@@ -1,6 +1,6 @@
 CONSTANTS
   MaxList = 3
-  MaxPerm = 4
+  MaxPerm = 5
   Span = 12
   MaxShift = 40
   Fams = {"pair", "flat", "range", "func", "perm", "num", "bits"}
